@@ -400,4 +400,54 @@ example :
     s1.searchmap = [] ∧ s1.inUse = [2] ∧ s1.resultmap = [(2, 1)] ∧ s1.chans.map (·.items) = [[]] ∧ chanOpen s1 0 = false ∧
     s1.drv = .running := by decide
 
+/-! ### the caller does not matter
+
+Whether the caller of a single-result operation ever looks at its result — polls its future once more, times
+out, or is gone (the future dropped by an outer `timeout`, a `select!` arm, a task abort) — plays no part in the
+release: nothing below mentions `o.res` or a `poll` event.  (Seeded change C13d released the ID only when the
+reply could be handed to a caller that was still there; lane `leaks`: `cancelled-caller-leaves-nothing-behind`.) -/
+
+/-- After ANY history: a single-result operation (or an Abandon) whose reply slot is no longer empty — the
+driver has answered it, or has dropped it with the connection — is registered nowhere: not waiting to be queued,
+not in the request queue, in neither routing map.  If the ID table holds its number at all, then for ANOTHER
+operation that is registered (the number was handed out again); the answered operation itself holds nothing. -/
+theorem C13_answered_operation_holds_nothing (N : Nat) (evs : List Ev) (hf : FreshRun (init N) evs)
+    (i : Nat) (o : Op) (ho : (run (init N) evs).ops[i]? = some o)
+    (hk : o.kind ≠ .search ∧ o.kind ≠ .unbind) (hm : o.mail ≠ .empty) :
+    ¬ Reg (run (init N) evs) i o ∧ (o.id, i) ∉ (run (init N) evs).resultmap ∧
+    ∀ k ∈ (run (init N) evs).inUse, k = o.id →
+      ∃ (j : Nat) (o' : Op), j ≠ i ∧ (run (init N) evs).ops[j]? = some o' ∧ o'.id = k ∧ Reg (run (init N) evs) j o' := by
+  have A := Acct.run N evs hf
+  have hnr : ¬ Reg (run (init N) evs) i o := by
+    intro hr
+    rcases hr with h | h | h | ⟨c, hc, _⟩ | ⟨hu, _⟩
+    · exact hm (A.fresh i o ho (by rw [h]; intro e; cases e)).1
+    · obtain ⟨o', ho', hq⟩ := A.qPhase i h
+      rw [ho] at ho'
+      cases ho'
+      exact hm (A.fresh i o ho (by rw [hq]; intro e; cases e)).1
+    · obtain ⟨o', ho', _, _, hme, _⟩ := A.rmOk _ h
+      rw [ho] at ho'
+      cases ho'
+      exact hm hme
+    · have := (A.kindChan i o ho).mpr (by rw [hc]; intro e; cases e)
+      exact hk.1 this
+    · exact hk.2 hu
+  refine ⟨hnr, fun h => hnr (Or.inr (Or.inr (Or.inl h))), ?_⟩
+  intro k hkm hke
+  obtain ⟨j, o', ho', hid, hreg⟩ := A.acct k hkm
+  refine ⟨j, o', ?_, ho', hid, hreg⟩
+  intro e
+  subst e
+  rw [ho] at ho'
+  cases ho'
+  exact hnr hreg
+
+/-- a history meeting the hypotheses: a delete is sent and answered, its caller never polls (ops[0] has its reply
+in the slot, `res = none`); the table is empty -/
+example :
+    let s := run (init 100) [.alloc .single, .enqueue 0 none, .drvOp true, .srvSend ⟨1, 11, 7, true⟩, .drvResp]
+    s.ops.map (fun o => (o.mail, o.res)) = [(.frame ⟨1, 11, 7, true⟩, none)] ∧ s.inUse = [] ∧ s.resultmap = [] := by
+  decide
+
 end Ldap3V.Conn
